@@ -197,7 +197,7 @@ def report(chk, family, kind, variant, text, mode, fails):
 
 def run(chk):
     quick = chk.tier == "quick"
-    ok, log = chk.prove(["extract/Extract_C03.vo"])
+    ok, log = chk.prove(["extract/Extract_C03.vo", "extract/Extract_ED.vo"])
     chk.level = "proof"
     chk.trusted += ["per-run certificate instead of a proof for Eigen::SelfAdjointEigenSolver: residuals of the dumped (E,U) against EDSpec.poly_matrix "
                     "of the dumped Hamiltonian polynomial, computed in binary64 by the extracted specification (driver_ed CERT, driver_c03 BCERT)",
